@@ -24,3 +24,18 @@ pub(crate) fn lock_model<'a, T>(mutex: &'a std::sync::Mutex<T>) -> std::sync::Mu
         Err(std::sync::TryLockError::WouldBlock) => panic!("self-deadlock: lock already held by this thread"),
     }
 }
+
+/// Vec with *concrete* capacity CAP, symbolic length <= CAP, symbolic contents
+/// (see harness/c14.rs for why the capacity is concrete).
+pub(crate) fn any_vec<const CAP: usize>() -> Vec<u8> {
+    let len: usize = kani::any();
+    kani::assume(len <= CAP);
+    let mut v: Vec<u8> = Vec::with_capacity(CAP);
+    kani::assume(v.capacity() == CAP);
+    let init: [u8; CAP] = kani::any();
+    unsafe {
+        core::ptr::copy_nonoverlapping(init.as_ptr(), v.as_mut_ptr(), CAP);
+        v.set_len(len);
+    }
+    v
+}
